@@ -21,6 +21,7 @@ ENV = {"ASAN_OPTIONS": "detect_leaks=0:abort_on_error=0", "UBSAN_OPTIONS": "prin
 
 OPENCC = "/usr/share/opencc"
 SYNTH = ["synth_express", "synth_fluid"]
+SYNTH_PUNCT = ["synth_punct_express", "synth_punct_fluid"]   # + punctuator, punct_segmentor, punct_translator
 STOCK = ["luna_pinyin", "luna_pinyin_fluid", "cangjie5", "cangjie5_fluid"]
 
 # keysyms
@@ -464,3 +465,49 @@ def gen_option_history(rng, stock):
             ops.append("getctx")
         ops.append(rng.choice([key(XK["Down"]), key(XK["Up"]), "getctx", key(XK["Escape"])]))
     return ops
+
+
+# ---------------------------------------------------------------------------
+# round 3: punctuation keys on the synth_punct_* schemas (harness/eng/session.cc: synth_punct_schema)
+# ---------------------------------------------------------------------------
+
+PUNCT_KEYS = ",.;\"'/:!$~#%^@ <"      # every key of the two tables (all four shapes + the malformed ones)
+
+
+def gen_punct_history(rng, length, full_shape=True):
+    """Punctuation keys pressed once and repeatedly (alternating lists, pairs with their oddness),
+    with and without a composition in progress, digits before separators (the digit-separator
+    paths need a "thru" record in the commit history), full_shape / ascii_punct toggles, confirm /
+    reopen / caret moves in between, selections into the merged menu (punct candidates first,
+    then the oracle translator's).  full_shape=False keeps the option off (C03's commit-is-preview
+    clause is stated for full_shape off: the formatter widens committed text, not the preview)."""
+    ops = []
+    while len(ops) < length:
+        r = rng.random()
+        if r < 0.28:
+            for _ in range(rng.choice([1, 1, 2, 3])):
+                ops.append(key(ord(rng.choice(LETTERS))))
+        elif r < 0.60:
+            ch = rng.choice(PUNCT_KEYS)
+            for _ in range(rng.choice([1, 1, 1, 2, 3, 4])):
+                ops.append(key(ord(ch)))
+        elif r < 0.69:
+            ops.append(key(ord(rng.choice("0123456789"))))
+            if rng.random() < 0.6:
+                ops.append(key(ord(rng.choice(",.:'"))))
+                if rng.random() < 0.5:
+                    ops.append(key(ord(rng.choice("0123456789 ,."))))
+        elif r < 0.77:
+            ops.append(rng.choice(["opt full_shape %d" % rng.randrange(2), "opt ascii_punct %d" % rng.randrange(2),
+                                   "opt full_shape 1", "opt full_shape 0"]) if full_shape else
+                       "opt ascii_punct %d" % rng.randrange(2))
+        elif r < 0.88:
+            ops.append(key(XK[rng.choice(["space", "BackSpace", "BackSpace", "Return", "Escape", "Left", "KP_Left", "Home",
+                                          "End", "Down", "Next", "Delete", "Right"])]))
+        elif r < 0.95:
+            ops.append(rng.choice(["sel %d" % rng.randrange(0, 10), "hl %d" % rng.randrange(0, 10), "commit", "getcommit",
+                                   "caret %d" % rng.randrange(0, 6), "page 0", "clear",
+                                   "input " + "".join(rng.choice(",.;3a<") for _ in range(rng.randrange(1, 4))).encode().hex()]))
+        else:
+            ops += [o for o in gen_api_history(rng, 3) if full_shape or not o.startswith("opt full_shape")]
+    return ops[:length]
